@@ -194,9 +194,11 @@ def chunks(n, size):
     return [(lo, min(n, lo + size)) for lo in range(0, n, size)]
 
 
-def pmap_split(work, n, chunk, timeout=120.0, init=None):
+def pmap_split(work, n, chunk, timeout=120.0, init=None, single_timeout=None, max_failures=24):
     """work((lo, hi)) over chunks of range(n); a chunk whose worker hangs/crashes is re-run one case at a
-    time so the failure is attributed to a single case.  Returns [((lo, hi), result-or-Crash), ...]."""
+    time so the failure is attributed to a single case.  Once `max_failures` single cases have failed, the
+    remaining cases of failed chunks are not re-run (result Crash('skipped', ...): the caller must report the
+    run as capped).  Returns [((lo, hi), result-or-Crash), ...] sorted by lo."""
     jobs = chunks(n, chunk)
     res = pmap(work, jobs, timeout=timeout, init=init)
     out, retry = [], []
@@ -205,8 +207,18 @@ def pmap_split(work, n, chunk, timeout=120.0, init=None):
             retry.extend((i, i + 1) for i in range(job[0], job[1]))
         else:
             out.append((job, r))
-    if retry:
-        res2 = pmap(work, retry, timeout=timeout, init=init)
-        out.extend(zip(retry, res2))
+    failures = 0
+    batch = 4 * NPROC
+    pos = 0
+    while pos < len(retry):
+        if failures >= max_failures:
+            out.extend((j, Crash("skipped", "not re-run: %d single-case failures already attributed" % failures))
+                       for j in retry[pos:])
+            break
+        part = retry[pos:pos + batch]
+        res2 = pmap(work, part, timeout=single_timeout or timeout, init=init)
+        failures += sum(1 for r in res2 if isinstance(r, Crash))
+        out.extend(zip(part, res2))
+        pos += batch
     out.sort(key=lambda jr: jr[0][0])
     return out
